@@ -604,7 +604,10 @@ func c04One(bi, wk int, d c04Damage, root, base string, w []c03Step, seed int64,
 					}
 					return "", ""
 				}, true)
-				if (sig == "acked-sample-lost" || sig == "not-durable-after-recovery:acked-sample-lost") && d.file == "hc" && conc.Snapshot {
+				// (a) only a truncation loses chunks silently (file cut below its magic: removed by repairLastChunkFile; cut at a
+				// chunk boundary or inside a chunk header: IterateAllChunks sees the end of the file), any changed byte raises a
+				// CorruptionErr that discards the snapshot; (b) shows in the on-disk state after the recovery
+				if ((sig == "acked-sample-lost" && d.kind == "trunc") || sig == "not-durable-after-recovery:acked-sample-lost") && d.file == "hc" && conc.Snapshot {
 					// known deviation KF-C04-3: with EnableMemorySnapshotOnShutdown the chunk snapshot is trusted although
 					// repairLastChunkFile has silently removed the (truncated) newest head-chunk file it depends on
 					sig = "snapshot:" + sig
